@@ -2,7 +2,8 @@
    order-independent.  Property theorems only; each is closed by [exact] of a
    lemma proved in C14/Lemmas.v or C14/SmallScope.v and followed by its assumptions. *)
 From Coq Require Import ZArith List Bool.
-From V Require Import C14.Model C14.Laws C14.Lemmas C14.SmallScope C14.SmallScope2.
+From V Require Import C14.Model C14.Laws C14.Lemmas C14.Scratch.
+From Coq Require Import Permutation.
 Import ListNotations.
 Open Scope Z_scope.
 
@@ -48,30 +49,31 @@ Theorem C14_allocated_hypernode_is_lca : forall hn prev chosen,
 Proof. exact allocated_hypernode_is_lca. Qed.
 Print Assumptions C14_allocated_hypernode_is_lca.
 
-(* --- the view: PARTIAL (bounded universe, unbounded history length).  For every history
-   of add / update / delete events over the universe u_alphabet (4 HyperNodes on 3 tiers,
-   15 object versions, exact-match members) whose every intermediate object set is a
-   consistent forest: the incremental view equals the tree derived from the final objects
-   (parent, children, tier, leaves below), is Ready, and agrees with a from-scratch view --- *)
-Theorem C14_incremental_equals_scratch_small_scope : forall h,
-  guards_along u_env u_alphabet u_init h ->
-  let c := fold_left (cstep u_env) h u_init in
-  view_matches_spec u_env (c_objs c) (c_st c) = true /\
-  s_ready (c_st c) = true /\ s_fuel (c_st c) = false /\
-  views_agree (c_objs c) (c_st c) (scratch u_env (c_objs c)) = true.
-Proof. exact incremental_equals_scratch_small_scope. Qed.
-Print Assumptions C14_incremental_equals_scratch_small_scope.
+(* --- the view, UNBOUNDED (any number of HyperNodes, tiers, members): for every set of objects
+   with exact-match members that arrives leaf-first (each object after all its HyperNode
+   members, which exist and are not yet claimed: a consistent forest built bottom-up), the
+   view built by UpdateHyperNode is the tree derived from the objects:
+   entry(k) = (tier, members, the unique claimer as parent, the claimed members as children),
+   realNodes(k) = the node members at or below k, tier sets = objects by tier, Ready --- *)
+Theorem C14_rebuild_from_scratch_spec_leaf_first : forall e P, leaf_first P -> Rep (scratch e P) P.
+Proof. exact scratch_leaf_first. Qed.
+Print Assumptions C14_rebuild_from_scratch_spec_leaf_first.
 
-(* the same statement on a second universe: a four-tier chain h1<h2<h3<h4 and a leaf h5
-   that can hang under any of them *)
-Theorem C14_incremental_equals_scratch_small_scope2 : forall h,
-  guards_along v_env v_alphabet u_init h ->
-  let c := fold_left (cstep v_env) h u_init in
-  view_matches_spec v_env (c_objs c) (c_st c) = true /\
-  s_ready (c_st c) = true /\ s_fuel (c_st c) = false /\
-  views_agree (c_objs c) (c_st c) (scratch v_env (c_objs c)) = true.
-Proof. exact incremental_equals_scratch_small_scope2. Qed.
-Print Assumptions C14_incremental_equals_scratch_small_scope2.
+(* order-independence on that class: any two leaf-first arrival orders of the same objects
+   give the same entries, leaf sets, tier sets, and both are Ready *)
+Theorem C14_incremental_equals_scratch_leaf_first : forall e P Q,
+  leaf_first P -> leaf_first Q -> Permutation P Q ->
+  let s := scratch e P in let s' := scratch e Q in
+  (forall k, aget k (s_hn s) = aget k (s_hn s')) /\
+  (forall k n, In n (real_get s k) <-> In n (real_get s' k)) /\
+  (forall t k, In k (match zget t (s_tier s) with Some l => l | None => [] end) <->
+               In k (match zget t (s_tier s') with Some l => l | None => [] end)) /\
+  s_ready s = true /\ s_ready s' = true.
+Proof. exact leaf_first_order_independent. Qed.
+Print Assumptions C14_incremental_equals_scratch_leaf_first.
+
+(* --- the view: the small-scope order-independence theorems live in Props/C14SmallScope.v
+   (thorough tier only: ~20 min of clean Coq build) --- *)
 
 (* --- errors are reported (all states, all inputs): a failing UpdateHyperNode /
    DeleteHyperNode leaves Ready = false; the two error sources of BuildHyperNodeCache --- *)
@@ -116,6 +118,20 @@ Theorem C14_d4_tier0_not_indexed_refuted : exists evs,
 Proof. exact d4_tier0_not_indexed_refuted. Qed.
 Print Assumptions C14_d4_tier0_not_indexed_refuted.
 
+Theorem C14_d6_failed_delete_refuted : exists evs,
+  let objs := [mkObj 1 1 []; mkObj 2 3 [MHyper 1]; mkObj 3 2 [MHyper 1]]%positive in
+  bad_membership objs = true /\
+  s_ready (snd (run_round2 (mkEnv [] []) evs)) = true /\
+  s_ready (snd (run (mkEnv [] []) evs)) = false.
+Proof. exact d6_failed_delete_refuted. Qed.
+Print Assumptions C14_d6_failed_delete_refuted.
+
+Theorem C14_d9_foreign_release_refuted : exists evs,
+  (exists i, aget 2%positive (s_hn (snd (run_round2 (mkEnv [] []) evs))) = Some i /\ i_parent i = None) /\
+  (exists i, aget 2%positive (s_hn (snd (run (mkEnv [] []) evs))) = Some i /\ i_parent i = Some 3%positive).
+Proof. exact d9_foreign_release_refuted. Qed.
+Print Assumptions C14_d9_foreign_release_refuted.
+
 (* --- still refuted at full strength on the repaired code (known findings D5 / D7): a
    doubly claimed member can stay unreported --- *)
 Theorem C14_bad_membership_not_ready_refuted : exists evs,
@@ -125,12 +141,10 @@ Proof. exact bad_membership_not_ready_refuted. Qed.
 Print Assumptions C14_bad_membership_not_ready_refuted.
 
 (* non-vacuity *)
-Example C14_small_scope_nonvacuous :
-  guards_along u_env u_alphabet u_init
-    [EUpd (mkObj 4 3 [MHyper 3]); EUpd (mkObj 3 2 [MHyper 1; MHyper 2]); EUpd (mkObj 1 1 [MNode 1]);
-     EUpd (mkObj 2 1 [MNode 2]); EUpd (mkObj 3 2 [MHyper 1]); EUpd (mkObj 4 3 [MHyper 3; MHyper 2]);
-     EDel 1; EUpd (mkObj 1 1 [MNode 1; MNode 2])]%positive.
-Proof. exact small_scope_nonvacuous. Qed.
+Example C14_leaf_first_nonvacuous :
+  leaf_first [mkObj 1 1 [MNode 1; MNode 2]; mkObj 2 1 [MNode 3]; mkObj 5 1 [];
+              mkObj 3 2 [MHyper 1; MNode 4; MHyper 2]; mkObj 4 3 [MHyper 3]; mkObj 6 2 [MHyper 5]]%positive.
+Proof. exact leaf_first_example. Qed.
 
 Example C14_gradient_nonvacuous :
   let s := snd (run (mkEnv [] []) [EUpd (mkObj 1 1 [MNode 1]); EUpd (mkObj 2 1 [MNode 2]);
